@@ -277,10 +277,11 @@ type JournalEntry struct {
 
 // TEPolicy is the token-exchange policy of the store (part of the abstract state).
 type TEPolicy struct {
-	Deny        bool
-	DefaultType oidc.TokenType // applied when the request has no requested_token_type
-	Impersonate string         // if set, SetSubject(Impersonate)
-	DropScope   string         // scope removed by the policy
+	Deny         bool
+	DenyAtCreate bool           // the veto is raised by CreateTokenExchangeRequest instead of ValidateTokenExchangeRequest
+	DefaultType  oidc.TokenType // applied when the request has no requested_token_type
+	Impersonate  string         // if set, SetSubject(Impersonate)
+	DropScope    string         // scope removed by the policy
 }
 
 type SignKey struct {
@@ -423,6 +424,12 @@ func (s *Store) enter(ctx context.Context, method string, args ...string) error 
 	s.calls++
 	e := JournalEntry{N: s.calls, Method: method, Args: args}
 	var err error
+	if cerr := ctx.Err(); cerr != nil {
+		// a storage whose calls honour the context they are given (as database drivers do): a context that is already over ends the call
+		e.Err = cerr.Error()
+		s.Journal = append(s.Journal, e)
+		return cerr
+	}
 	if (s.FailAt != 0 && s.calls == s.FailAt) || (s.FailMethod != "" && s.FailMethod == method) {
 		if s.FailOnce {
 			// only the first matching call fails (a retry of the library meets a storage that works)
@@ -1072,7 +1079,7 @@ func (t TE) ValidateTokenExchangeRequest(ctx context.Context, r op.TokenExchange
 			return err
 		}
 	}
-	if s.Policy.Deny {
+	if s.Policy.Deny && !s.Policy.DenyAtCreate {
 		return oidc.ErrAccessDenied().WithDescription("policy veto")
 	}
 	if r.GetRequestedTokenType() == "" && s.Policy.DefaultType != "" {
@@ -1115,7 +1122,14 @@ func (t TE) VerifyExchangeActorToken(ctx context.Context, token string, tokenTyp
 }
 
 func (t TE) CreateTokenExchangeRequest(ctx context.Context, r op.TokenExchangeRequest) error {
-	return t.S.enter(ctx, "CreateTokenExchangeRequest")
+	if err := t.S.enter(ctx, "CreateTokenExchangeRequest"); err != nil {
+		return err
+	}
+	if t.S.Policy.Deny && t.S.Policy.DenyAtCreate {
+		// the storage's veto comes with its second hook (when it is asked to persist the exchange)
+		return oidc.ErrAccessDenied().WithDescription("policy veto")
+	}
+	return nil
 }
 
 func (t TE) GetPrivateClaimsFromTokenExchangeRequest(ctx context.Context, r op.TokenExchangeRequest) (map[string]any, error) {
